@@ -88,8 +88,10 @@ Next == /\ Len(hist) < MaxFeeds
 Spec == Init /\ [][Next]_vars
 
 (* For tlc -simulate: one random feed per step instead of enumerating all of them. *)
+(* consecutive feeds may carry the same header timestamp (the property is about feed order, not clock order) *)
+RandomTime == IF hist = <<>> THEN FeedTime(1) ELSE hist[Len(hist)].t + RandomElement({d \in {0, 10, 20} : Len(hist) >= 0})
 FeedOf(n, c) ==
-    [t |-> FeedTime(n),
+    [t |-> TLCEval(RandomTime),
      ups |-> LET present == FilterSeq(LAMBDA k : IsSome(c[k]), KeySeq)
              IN [i \in DOMAIN present |->
                    LET k == present[i] sh == Val(c[k])
